@@ -1,6 +1,7 @@
 package main
 
 import (
+	"go/ast"
 	"os"
 	"runtime/debug"
 	"fmt"
@@ -137,6 +138,20 @@ func (p *Program) verifyUnitOnce(u *Unit, splitVal *big.Int, sitePrefix string) 
 		}
 		for k, v := range env.vars {
 			renv.vars[k] = v
+		}
+		// a local that exists on other paths but not on this one (e.g. an early error return before its definition)
+		// is an unconstrained value here, so that "err == nil ==> ... local ..." clauses can be stated
+		for name, t := range localNamesOf(fn) {
+			if _, ok := renv.vars[name]; ok || o.st.world.get(name) != nil {
+				continue
+			}
+			t = types.Unalias(t)
+			if pt, ok := t.Underlying().(*types.Pointer); ok {
+				t = types.Unalias(pt.Elem())
+			}
+			if srt := SortOf(t); srt != nil {
+				renv.vars[name] = x.freshTerm("undef_"+name, srt)
+			}
 		}
 		x.bindResults(renv, fn, c, o.rets)
 		x.applyLemmas(nil, o.st, renv, "return")
@@ -787,4 +802,21 @@ func (x *Exec) applyUses(st *State, env *Env) {
 		st.assume(body)
 		x.tagFrom(st, n0, "uses:"+lu.Name)
 	}
+}
+
+// localNamesOf: the named local variables of a function (from its debug references), with their types.
+func localNamesOf(fn *ssa.Function) map[string]types.Type {
+	out := map[string]types.Type{}
+	for _, b := range fn.Blocks {
+		for _, ins := range b.Instrs {
+			if d, ok := ins.(*ssa.DebugRef); ok && !d.IsAddr {
+				if id, ok := d.Expr.(*ast.Ident); ok && id.Name != "_" {
+					if _, dup := out[id.Name]; !dup {
+						out[id.Name] = d.X.Type()
+					}
+				}
+			}
+		}
+	}
+	return out
 }
